@@ -138,6 +138,8 @@ type IdP struct {
 	FullMetadata bool
 	// AtHash: ID tokens carry at_hash, the hash of the access token issued WITH them (OIDC Core 3.1.3.6)
 	AtHash bool
+	// CallbackExtras is the number of further parameters the provider adds to the authorization response (0-12)
+	CallbackExtras int
 	// BigTokens, when positive, makes ID tokens (a groups claim) and access tokens about that many bytes longer
 	BigTokens int
 	// JWKSHeaders are added to every JWKS answer (cache directives)
@@ -248,6 +250,13 @@ func (p *IdP) Authorize(location, sub string) (string, *AuthReq, error) {
 	rq.Set("code", a.Code)
 	if a.State != "" {
 		rq.Set("state", a.State)
+	}
+	// further authorization-response parameters that providers add (RFC 9207 iss, Keycloak's session_state, Google's
+	// scope / authuser / hd / prompt, ...): a client ignores what it does not know
+	extras := [][2]string{{"session_state", "5a3e1f0c-7d2b-4e8a-9c11-0f6b2d9a4e77"}, {"iss", p.Base()}, {"scope", "openid email profile"}, {"authuser", "0"}, {"prompt", "none"},
+		{"hd", "example.org"}, {"client_info", "eyJ1aWQiOiIxMjM0In0"}, {"ui_locales", "en"}, {"acr_values", "1"}, {"login_hint", "user@example.org"}, {"tenant", "t-42"}, {"zz", "last"}}
+	for i := 0; i < p.CallbackExtras && i < len(extras); i++ {
+		rq.Set(extras[i][0], extras[i][1])
 	}
 	ru.RawQuery = rq.Encode()
 	return ru.String(), a, nil
